@@ -99,6 +99,9 @@ def check_evaluator(chk, rel, name, rule="E4-evaluator"):
     combos = [(a, b) for a in (0, 1) for b in (0, 1)] if two_d else [(a, None) for a in (0, 1)]
     for d1, d2 in combos:
         over = {"der1": Integer(d1), "der2": Integer(d2)} if two_d else {"der": Integer(d1)}
+        if fam == "cu":
+            # BSplines selects the uniform-cubic family only for degree 3
+            over.update({"deg1": Integer(3), "deg2": Integer(3)} if two_d else {"degree": Integer(3)})
         args = make_args(fn, overrides=over)
         ex = SymExec(fn, args, calls=dict(HANDLERS))
         label = f"{name}[der={d1}{',' + str(d2) if two_d else ''}]"
@@ -152,6 +155,10 @@ def sum_equal(a, b):
 
 
 def _canon(e, depth=0):
+    if isinstance(e, sp.Sum) and len(e.limits) == 1 and e.limits[0][1] == 0:
+        # peel the first term so that every sum starts at 1 (degree >= 1): sum_{0..n} f = f(0) + sum_{1..n} f
+        v, lo, hi = e.limits[0]
+        return _canon(e.function.subs(v, 0), depth) + _canon(sp.Sum(e.function, (v, 1, hi)), depth)
     if isinstance(e, sp.Sum):
         f = e.function
         lims = e.limits
